@@ -68,6 +68,16 @@ def next (w : Win) : Option Nat × Win := if w.l = 0 then (none, w) else (some w
 /-- `next_back()` -/
 def nextBack (w : Win) : Option Nat × Win := if w.l = 0 then (none, w) else (some (w.s + w.l - 1), ⟨w.s, w.l - 1⟩)
 
+/-- `nth(k)`: std's default — `k` elements are skipped, the next one is yielded; overshooting exhausts the iterator -/
+def nth (w : Win) (k : Nat) : Option Nat × Win :=
+  if k < w.l then (some (w.s + k), ⟨w.s + k + 1, w.l - k - 1⟩) else (none, ⟨w.s + w.l, 0⟩)
+/-- `nth_back(k)` -/
+def nthBack (w : Win) (k : Nat) : Option Nat × Win :=
+  if k < w.l then (some (w.s + w.l - 1 - k), ⟨w.s, w.l - 1 - k⟩) else (none, ⟨w.s, 0⟩)
+/-- `last()`: consumes the iterator, yields its last element -/
+def lastOf (w : Win) : Option Nat × Win :=
+  if w.l = 0 then (none, w) else (some (w.s + w.l - 1), ⟨w.s + w.l, 0⟩)
+
 /-! ## reading and writing the parent at positions -/
 
 /-- ids of the element at parent position `i` (one per leaf, declaration order) -/
